@@ -720,6 +720,7 @@ class C01(fw.Prop):
                 pl = conv_prog(obs["prog"], c["tab"])      # may intern further types: before the table is printed
                 lit = gapp("CProg", pl, gvhugr(c), gbool(obs["same"]), gbool(obs["fake"]))
                 obs["in_model"] = True
+                ctx.__dict__.setdefault("c01_prem", []).append((case, gapp("CPrem", gtab(c["tab"]), pl)))
             except OutOfModel as e:
                 obs["out_of_model"] = str(e)
         if lit is None:
@@ -861,6 +862,17 @@ class C01(fw.Prop):
         for i in res["mon"][:3]:
             out.append(("mutation-not-rejected", "a document with rule `%s` violated by mutation is not rejected by "
                         "that rule" % RULE_NAMES[meta[i][0]], {"rule": RULE_NAMES[meta[i][0]]}))
+        # (e) the decidable premises of the theorems of props/C01.v (spec/BuilderWFS.v) hold of every in-model program
+        # the correspondence was sampled on: otherwise the theorems do not speak about the tested programs
+        pr = ctx.__dict__.get("c01_prem", [])
+        ctx.stats["premise_checked_programs"] = len(pr)
+        if pr:
+            res = fw.eval_cases(ctx.work, self.run_module, [x[1] for x in pr], shard=60, checks=("prem",), tag="prem")
+            ctx.stats["premise_failures"] = len(res["prem"])
+            for i in res["prem"][:3]:
+                out.append(("premise-not-met", "an in-model program the generator believes well formed does not satisfy "
+                            "the well-formedness premises (wt_prog ...) of the theorems of props/C01.v",
+                            {"failing_input": pr[i][0], "signature": "premise:not-met", "program": self.program(pr[i][0])}))
         # (d) agreement with the design-time transcription on the generated documents (model drift, not a verdict)
         fk = ctx.__dict__.get("c01_fake", [])
         ctx.stats["fake_rejected_generated"] = sum(1 for x in fk if not x[1])
